@@ -23,6 +23,8 @@ pub mod c15;
 pub mod c16;
 pub mod c16_extra;
 pub mod c17;
+pub mod c18;
+pub mod c18_cli;
 pub mod c19;
 pub mod c16_model;
 
@@ -52,6 +54,7 @@ pub fn all() -> Vec<Prop> {
         Prop { id: "C15", run: c15::run, replay: c15::replay },
         Prop { id: "C16", run: c16::run, replay: c16::replay },
         Prop { id: "C17", run: c17::run, replay: c17::replay },
+        Prop { id: "C18", run: c18::run, replay: c18::replay },
         Prop { id: "C19", run: c19::run, replay: c19::replay },
     ]
 }
